@@ -218,7 +218,33 @@ impl FileLogWriterBuilder {
         )))
     }
 
+    // a timestamp format that chrono cannot render would make the first log call panic
+    fn check_timestamp_format(&self) -> Result<(), FlexiLoggerError> {
+        if let Some(RotationConfig {
+            naming: Naming::TimestampsCustomFormat { format, .. },
+            ..
+        }) = &self.o_rotation_config
+        {
+            use std::fmt::Write;
+            let now = chrono::Local::now();
+            let mut infix = String::new();
+            let result = if self.use_utc {
+                write!(infix, "{}", now.naive_utc().format(format))
+            } else {
+                write!(infix, "{}", now.format(format))
+            };
+            if result.is_err() {
+                return Err(FlexiLoggerError::OutputIo(std::io::Error::new(
+                    std::io::ErrorKind::InvalidInput,
+                    "the format for the timestamp infix cannot be rendered",
+                )));
+            }
+        }
+        Ok(())
+    }
+
     pub(super) fn try_build_state(&self) -> Result<State, FlexiLoggerError> {
+        self.check_timestamp_format()?;
         // make sure the folder exists or create it
         // a path without a directory part (e.g. from FileSpec::try_from("foo.log")) means the current folder
         let mut dir = self.file_spec.get_directory();
